@@ -93,7 +93,7 @@ func randIntOfKind(r *Rng, k int) any {
 		}
 		return uint64(pick(0, math.MaxInt64)) // representable in int64 (property range)
 	case 10:
-		fs := []float32{0, 1, -1, 2.5, -0.25, 3, 1e10, float32(math.MaxInt32), 16777216, 16777217}
+		fs := []float32{0, 1, -1, 2.5, -0.25, 3, 1e10, float32(math.MaxInt32), 16777216, 16777217, 0.1, 3.14, 0.001, -0.7}
 		return fs[r.Intn(len(fs))]
 	default:
 		fs := []float64{0, 1, -1, 2, 3, -3, 2.5, -0.25, 1e300, -1e300, 9007199254740992, 9007199254740993, math.MaxInt64, math.MinInt64, 0.1, 1 << 31, 255, 127, -128, 65535, math.Copysign(0, -1), 4.9e-324}
@@ -136,6 +136,51 @@ func genRelCase(r *Rng) (src string, env *Env, c11 string) {
 		a, b = r.Pick(pool), r.Pick(pool)
 	}
 	ops := []string{"==", "!=", "<", "<=", ">", ">="}
+	carrier := false
+	if r.Chance(12) {
+		// the same number carried by two Go types: a conversion built-in that is exact for this value must compare
+		// equal to its argument (equality never depends on which Go type carries the number)
+		k := r.Intn(12)
+		v := randIntOfKind(r, k)
+		env.Names = append(env.Names, "p")
+		env.Vals["p"] = v
+		var convs []string
+		switch x := v.(type) {
+		case float32:
+			convs = []string{"float64", "float32"}
+		case float64:
+			convs = []string{"float64"}
+			if float64(float32(x)) == x {
+				convs = append(convs, "float32")
+			}
+		default:
+			i, _ := toI(v)
+			convs = []string{"int64", "int"}
+			if i >= -(1<<53) && i <= 1<<53 {
+				convs = append(convs, "float64")
+			}
+			if i >= -(1<<24) && i <= 1<<24 {
+				convs = append(convs, "float32")
+			}
+			if i >= 0 {
+				convs = append(convs, "uint64", "uint")
+			}
+			if i >= -128 && i <= 127 {
+				convs = append(convs, "int8")
+			}
+			if i >= 0 && i <= 65535 {
+				convs = append(convs, "uint16")
+			}
+			if i >= math.MinInt32 && i <= math.MaxInt32 {
+				convs = append(convs, "int32")
+			}
+		}
+		a, b = r.Pick(convs)+"(p)", "p"
+		if r.Bool() {
+			a, b = b, a
+		}
+		carrier = true
+	}
 	src = a + " " + ops[r.Intn(6)] + " " + b
 	// direct oracle: the six operators on this pair must be mutually consistent
 	res := map[string]string{}
@@ -151,6 +196,14 @@ func genRelCase(r *Rng) (src string, env *Env, c11 string) {
 			return false, true
 		}
 		return false, false
+	}
+	if carrier {
+		want := map[string]string{"==": "OK t", "!=": "OK f", "<": "OK f", "<=": "OK t", ">": "OK f", ">=": "OK t"}
+		for _, op := range ops {
+			if !strings.HasPrefix(res[op], want[op]) {
+				return src, env, fmt.Sprintf("p = %T(%v): %s %s %s gives %s (the conversion is exact for this value: want %s)", env.Vals["p"], env.Vals["p"], a, op, b, res[op], want[op])
+			}
+		}
 	}
 	eq, okEq := val("==")
 	ne, okNe := val("!=")
@@ -228,19 +281,29 @@ func quoteRaw(s string) (string, bool) {
 }
 
 // alternative escape spellings for a rune inside "..." / '...'
+// quoteAvoid: a character that must not occur raw in the literal text (the delimiter of the attribute the literal is
+// embedded in); it is spelled \xNN
+var quoteAvoid rune
+
 func quoteWith(r *Rng, s string, q rune) string {
 	var sb strings.Builder
 	sb.WriteRune(q)
 	for _, c := range s {
 		switch {
+		case c == quoteAvoid && c != 0 && c != q:
+			fmt.Fprintf(&sb, `\x%02x`, c)
 		case c == q:
 			sb.WriteString(`\` + string(q))
+		case c == '"' && q == '\'' && r.Chance(50):
+			sb.WriteString(`\"`) // the other quote may be written escaped as well
 		case c == '\\':
 			sb.WriteString(`\\`)
 		case c == '\n':
 			sb.WriteString(`\n`)
 		case c == '\r':
 			sb.WriteString(`\r`)
+		case (c == 7 || c == 8 || c == 11 || c == 12) && r.Chance(50):
+			sb.WriteString(map[rune]string{7: `\a`, 8: `\b`, 11: `\v`, 12: `\f`}[c])
 		case c < 0x20 || c == 0x7f:
 			switch r.Intn(3) {
 			case 0:
